@@ -120,6 +120,20 @@ PROPS["C03"] = dict(
                   "float From/As are checked against the property's tolerance with exact rationals (no model of the float arithmetic)"],
     assumptions=["amd64: int is 64 bits"],
 )
+PROPS["C04"] = dict(
+    n_quick=40000, n_thorough=3000000, shards=8, coq_dirs=["C04"],
+    rule="cases over all 16 configurations and both types: (40%) a raw value (edge values, Min/Max, |integer part| = 0, whole numbers of "
+         "many lengths, exact binary fractions, random) rendered by String/StringWithSign/Comma/CommaWithSign and parsed back through "
+         "FromString, UnmarshalText (bare and quoted), encoding/json (bare, quoted, inside a struct and a slice) and yaml.v3; (20%) the same "
+         "values through CheckedAs/As to float64/float32 next to the correctly rounded nearest float and its shortest text; (20%) plain "
+         "literals with redundant zeros, signs, missing integer or fraction part, fractions of up to 40 digits; (20%) mutated/arbitrary byte "
+         "strings. non-trivial = everything but junk strings; distinct = distinct case text",
+    trivial_class=r"(parse-junk|^bad$|^exn$)",
+    trusted_base=["strconv.FormatInt/ParseInt, big.Int String/SetString are re-implemented on digit lists (compared byte for byte on every case)",
+                  "strings containing E/e take the strconv.ParseFloat detour, which is not modelled (K skipped, only 'no panic' checked)",
+                  "strconv.FormatFloat 'f' -1 and big.Rat.Float64/Float32 (Go standard library) provide the nearest float and its shortest text for the CheckedAs oracle"],
+    assumptions=["amd64"],
+)
 
 # properties not (yet) claimed, with the reason; an entry is dropped automatically once the property is in PROPS
 NOT_APPLICABLE = {
@@ -128,6 +142,15 @@ NOT_APPLICABLE = {
 }
 
 MANIFEST_TEXT = {
+    "C04": dict(
+        level_text="Proof: decimal printing/parsing of every integer below 10^45 are inverse (the FormatInt/ParseInt, big.Int String/SetString "
+                   "core of String and FromString), Comma only adds separators (removing commas gives the digits back, any length), Unquote "
+                   "undoes quoting -- Coq theorems over the byte-level model. The end-to-end statements (FromString(String v) = v for every v and "
+                   "configuration, canonical form, literal truncation, no panic, CheckedAs to floats) are decided per run: byte-exact "
+                   "correspondence of the model with the real functions and an exact-rational oracle on the implementation's own outputs.",
+        level_note="Trusted: Coq kernel, extraction, drivers, harness; the full round-trip theorem is not yet proved (see DESIGN.md); the exponent "
+                   "detour and the float formatting of the standard library are not modelled.",
+        technique="Coq proof (digit-list induction) on a hand-written Gallina model + differential correspondence check with exact-rational oracle"),
     "C03": dict(
         level_text="Proof (f64): Add/Sub exact; Mul and Div = exact result truncated toward zero; Mod = a - b*trunc(a/b); Trunc toward zero, "
                    "Ceil toward +infinity, Round to nearest with halves away from zero; Abs/Min/Max/Inc/Dec; From(v) = v*10^D and "
